@@ -22,11 +22,12 @@ RULE = (
     "decided by co-membership: every TASK_/STAGE_ COMPLETED/FAILED event shares its commit group with the status row of "
     "that entity, and every completion row committed by CompleteTask / CompleteStage shares it with its event. A SYNC "
     "bus subscriber checks, through an independent connection, that each notified event is already durable; sequences "
-    "unique and increasing. Non-trivial = commit group containing a completion event; distinct = (event type, status "
+    "unique and increasing; (iii) the same crash-free monitors over runs by 2-4 worker threads interleaved at "
+    "SQL-statement granularity. Non-trivial = commit group containing a completion event; distinct = (event type, status "
     "written, handler, injected-failure class)."
 )
-ASSUMPTIONS = ["SQLite backend, event store in the same database file (the only deployment where one commit can cover both)", "events recorded outside a transaction block by design (stage started / skipped / canceled, workflow level) are not part of the claim"]
-MIN_OBS = {"completion_groups_checked": {"quick": 2000, "thorough": 30000}, "injected_failures": {"quick": 200, "thorough": 3000}, "bus_notifications": {"quick": 3000, "thorough": 40000}}
+ASSUMPTIONS = ["SQLite backend, event store in the same database file (the only deployment where one commit can cover both)", "events other than task / stage completion (started, skipped, canceled, workflow level) are not part of the claim"]
+MIN_OBS = {"completion_groups_checked": {"quick": 2000, "thorough": 30000}, "injected_failures": {"quick": 200, "thorough": 3000}, "bus_notifications": {"quick": 3000, "thorough": 40000}, "interleaved_runs": {"quick": 50, "thorough": 700}}
 TIMEOUT = {"quick": 800, "thorough": 3400}
 
 COMPLETION_EVENTS = {"task.completed": "task", "task.failed": "task", "stage.completed": "stage", "stage.failed": "stage"}
@@ -38,6 +39,8 @@ def gen_cases(tier: str, seed: int) -> list[dict]:
     for i in range(n):
         cases.append({"spec_i": i, "seed": seed, "mode": "plain"})
         cases.append({"spec_i": i, "seed": seed, "mode": "failpoints"})
+    for i in range(60 if tier == "quick" else 800):
+        cases.append({"spec_i": i, "seed": seed, "mode": "race"})
     return cases
 
 
@@ -161,7 +164,36 @@ class _Failpoint:
             self.armed = True
 
 
+def _race(case: dict) -> dict:
+    """Crash-free runs by 2-4 worker threads interleaved at SQL-statement granularity with event
+    sourcing on: co-membership of completion events and status rows per commit group, sequence numbers
+    unique and increasing in commit order, subscribers (called on whichever worker thread committed)
+    only see durable events."""
+    from .. import interleave as il
+
+    spec = _spec_for(case["spec_i"], case["seed"])
+    rng = random.Random(case["seed"] * 4447 + case["spec_i"])
+    run, info = il.race_run(spec, rng, events=True)
+    obs: Counter = Counter({"evaluations": 1})
+    if run is None:
+        obs["scheduler_failed"] += 1
+        return {"violations": [], "obs": dict(obs), "keys": [], "inconclusive": info.get("failed")}
+    obs["interleaved_runs"] += 1
+    v, o, k = atomicity_oracle(run, injected="race")
+    obs.update(o)
+    seen = set()
+    uniq = []
+    for x in v:
+        if x["sig"] not in seen:
+            seen.add(x["sig"])
+            x.update(spec=spec["name"], interleaved=True, trace_hash=info["trace_hash"])
+            uniq.append(x)
+    return {"violations": uniq, "obs": dict(obs), "keys": sorted(k)}
+
+
 def run_case(case: dict) -> dict:
+    if case.get("mode") == "race":
+        return _race(case)
     spec = _spec_for(case["spec_i"], case["seed"])
     rng = random.Random(case["seed"] * 19 + case["spec_i"])
     obs: Counter = Counter()
